@@ -254,6 +254,7 @@ pub const FAMILIES: &[&str] = &[
     "pcsaft",
     "pcsaft-assoc",
     "pcsaft-crossassoc",
+    "pcsaft-solvating",
     "pcsaft-polar",
     "epcsaft",
     "epcsaft-noions",
